@@ -437,7 +437,7 @@ fn dataset(instr: &[usize]) -> Vec<MEvent> {
                 instrument: InstrumentIndex(*inst),
                 kind: DataKind::Trade(PublicTrade {
                     id: format!("e{}", i + 1),
-                    price: PRICES[i],
+                    price: PRICES[i % PRICES.len()],
                     amount: 1.0,
                     side: if i % 2 == 0 { Side::Buy } else { Side::Sell },
                 }),
@@ -450,7 +450,7 @@ fn expected_log(instr: &[usize]) -> Vec<MEv> {
     instr
         .iter()
         .enumerate()
-        .map(|(i, inst)| MEv { id: format!("e{}", i + 1), instrument: *inst, price: format!("{}", PRICES[i]) })
+        .map(|(i, inst)| MEv { id: format!("e{}", i + 1), instrument: *inst, price: format!("{}", PRICES[i % PRICES.len()]) })
         .collect()
 }
 
@@ -1033,6 +1033,93 @@ fn mt_smoke(ctx: &Ctx) -> Value {
     })
 }
 
+/// Long datasets. The exhaustive sweep in `run` never exceeds 4 events, so defects that depend on the
+/// dataset *length* (chunking, batching, buffer boundaries) are out of its reach. This layer (a) pulls
+/// the real `MarketDataInMemory::stream` for EVERY dataset length 1..=L and compares the yielded events
+/// with the dataset, and (b) runs the whole real `backtest()` (in-memory source, idle strategy and one
+/// trading strategy) at lengths around powers of two and checks the engine's market log (rule R1).
+fn long_datasets(ctx: &Ctx) -> Value {
+    use rayon::prelude::*;
+    let lmax = ctx.tier.pick(2600usize, 9000usize);
+    let src = Source::InMemory;
+    let stream_violations: Vec<(usize, Vec<Viol>)> = (1..=lmax)
+        .into_par_iter()
+        .filter_map(|n| {
+            let instr: Vec<usize> = (0..n).map(|i| i % 2).collect();
+            let data = MarketDataInMemory::new(Arc::new(dataset(&instr)));
+            let got: Vec<MEv> = futures::executor::block_on(async {
+                match data.stream().await {
+                    Ok(s) => s
+                        .filter_map(|e| async move {
+                            match e {
+                                MarketStreamEvent::Item(ev) => match &ev.kind {
+                                    DataKind::Trade(t) => Some(MEv { id: t.id.clone(), instrument: ev.instrument.index(), price: format!("{}", t.price) }),
+                                    _ => None,
+                                },
+                                _ => None,
+                            }
+                        })
+                        .collect::<Vec<_>>()
+                        .await,
+                    Err(_) => vec![],
+                }
+            });
+            let mut out = Vec::new();
+            rule_completeness(&expected_log(&instr), &got, &src, &format!("MarketDataInMemory::stream of a {n}-event dataset"), &mut out);
+            // the detail of a long dataset is huge: keep only the head of it
+            let out: Vec<Viol> = out.into_iter().map(|(s, d)| (format!("{s}/long-dataset"), d.chars().take(300).collect())).collect();
+            if out.is_empty() { None } else { Some((n, out)) }
+        })
+        .collect();
+    let mut first_bad_len = None;
+    for (n, viols) in &stream_violations {
+        if first_bad_len.is_none() {
+            first_bad_len = Some(*n);
+        }
+        let instr: Vec<usize> = (0..*n).map(|i| i % 2).collect();
+        for (sig, detail) in viols {
+            // only the shortest failing length carries the (large) replay case
+            if Some(*n) == first_bad_len {
+                ctx.violate(sig.clone(), format!("dataset length {n}: {detail}"), case_json(&instr, &src, &[Strat::Idle]));
+            } else {
+                ctx.violations.bump(sig);
+            }
+        }
+    }
+    let lengths: Vec<usize> = if ctx.tier == crate::core::Tier::Thorough {
+        vec![255, 256, 257, 1023, 1024, 1025, 2047, 2048, 2049, 4096, 4097, 8193]
+    } else {
+        vec![1023, 1024, 1025, 2049]
+    };
+    let whole: Vec<(usize, Vec<Viol>)> = lengths
+        .par_iter()
+        .map(|&n| {
+            let instr: Vec<usize> = (0..n).map(|i| i % 2).collect();
+            let mut out = Vec::new();
+            for strat in [Strat::Idle, Strat::Trade { buy: 1, sell: n }] {
+                let ctxs = format!("alone, {n}-event in-memory dataset, strategy={strat:?}");
+                match execute(&instr, &src, &[strat], Mode::Alone) {
+                    Ok(v) => rule_completeness(&expected_log(&instr), &v[0].record.market, &src, &ctxs, &mut out),
+                    Err((kind, text)) => out.push((format!("C20/R1-completeness-order/backtest-failed/{kind}"), format!("{ctxs}: {text}"))),
+                }
+            }
+            (n, out.into_iter().map(|(s, d)| (format!("{s}/long-dataset"), d.chars().take(300).collect::<String>())).collect())
+        })
+        .collect();
+    for (n, viols) in &whole {
+        let instr: Vec<usize> = (0..*n).map(|i| i % 2).collect();
+        for (sig, detail) in viols {
+            ctx.violate(sig.clone(), format!("dataset length {n}: {detail}"), case_json(&instr, &src, &[Strat::Idle]));
+        }
+    }
+    json!({
+        "in_memory_stream_lengths_checked": format!("every length 1..={lmax}"),
+        "in_memory_stream_events_compared": (lmax * (lmax + 1) / 2),
+        "whole_backtest_lengths": lengths,
+        "whole_backtests_run": lengths.len() * 2,
+    })
+}
+
 pub fn run(ctx: &Ctx) -> Outcome {
     let n_max = ctx.tier.pick(3usize, 4usize);
     // thorough: the 4-value menu (with burst delay 0) for n <= 3, the 3-value menu at n = 4
@@ -1144,6 +1231,7 @@ pub fn run(ctx: &Ctx) -> Outcome {
         samples.offer(|| json!({"case": case_json(instr, source, &members), "observed": observed}));
     }
 
+    let long = long_datasets(ctx);
     let smoke = mt_smoke(ctx);
 
     let g = |a: &AtomicU64| a.load(Ordering::Relaxed);
@@ -1182,6 +1270,7 @@ pub fn run(ctx: &Ctx) -> Outcome {
             "exhaustive": true,
             "rule": "every dataset (instrument pattern) x every pacing vector (menu^(n+1)) + real MarketDataInMemory x every ordered assignment of strategies to N in {1,2,3} members, each executed by the real backtest()/run_backtests() on a paused current-thread runtime; R1 completeness/order, R2 member-in-batch == same member alone (and alone twice), R3 summary is its own engine's",
             "samples": samples.take(),
+            "long_dataset_layer": long,
             "auxiliary_multithread_smoke": smoke,
         }),
         assumptions: vec![
